@@ -353,7 +353,7 @@ class Ctx:
             if v["site"] == site and v["failure_class"] == failure_class and v["kind"] == kind and v.get("listed", False) == listed:
                 v["count"] += 1
                 # keep the smallest witness
-                if len(json.dumps(case, default=repr)) < len(json.dumps(v["case"], default=repr)):
+                if len(json.dumps(jsonable(case), default=repr)) < len(json.dumps(jsonable(v["case"]), default=repr)):
                     v["case"], v["detail"] = case, detail
                 return
         self.violations.append(dict(kind=kind, site=site, failure_class=failure_class, case=case, detail=detail,
